@@ -313,6 +313,23 @@ static void gen_stats(hctx* h) {
         { const uint64_t r[] = { P5 }; gen_rgm_bits(h, T_F32, r, 1, P5, P5, 1, N); }
         { const uint64_t r[] = { N }; gen_rgm_bits(h, T_F32, r, 1, N, N, 1, P5); }
         { const uint64_t r[] = { d5, dN }; gen_rgm_bits(h, T_F64, r, 2, d5, dN, 4, 0); gen_rgm_bits(h, T_F64, r, 2, d5, dN, 1, d5); }
+        /* signed zeros and their neighbours as bounds AND probes: every ordered pair of bounds (in the float order,
+         * -0.0 == +0.0) x every probe x every operator, both widths: a comparator that orders -0.0 below +0.0
+         * prunes a group of zeros of one sign probed with the zero of the other sign */
+        { static const uint64_t z32[] = { 0x00000000u, 0x80000000u, 0x00000001u, 0x80000001u, 0x3f800000u, 0xbf800000u };
+          static const uint64_t z64[] = { 0x0ull, 0x8000000000000000ull, 0x1ull, 0x8000000000000001ull,
+                                          0x3ff0000000000000ull, 0xbff0000000000000ull };
+          for (int w = 0; w < 2; w++) {
+              const uint64_t* z = w ? z64 : z32; int t = w ? T_F64 : T_F32;
+              for (int a = 0; a < 6; a++) for (int b = 0; b < 6; b++) {
+                  double da, db;
+                  if (w) { memcpy(&da, &z[a], 8); memcpy(&db, &z[b], 8); }
+                  else { float fa, fb; uint32_t ua = (uint32_t)z[a], ub = (uint32_t)z[b]; memcpy(&fa, &ua, 4); memcpy(&fb, &ub, 4); da = fa; db = fb; }
+                  if (!(da <= db)) continue;
+                  uint64_t r[2] = { z[a], z[b] };
+                  for (int op = 0; op < 6; op++) for (int q = 0; q < 6; q++) gen_rgm_bits(h, t, r, 2, z[a], z[b], op, z[q]);
+              }
+          } }
         /* page filter: page [1,1000] against x <= 256 */
         { int32_t one = 1, th = 1000, q = 256, mid = 300;
           pm_page pg; pg.nc = 0; pg.mn = v_make(&one, 4); pg.mx = v_make(&th, 4); pg.isnull = 0;
